@@ -795,6 +795,9 @@ DFGRIriginfo(int32 file_id)
             break; /* all checked, quit */
     }
 
+    if (!newref) /* no further RIG, RI8, CI8 or II8 */
+        HGOTO_ERROR(DFE_NOMATCH, FAIL);
+
     if (newtag == DFTAG_RIG) {
         if (DFGRgetrig(file_id, newref, &Grread) == FAIL)
             HGOTO_ERROR(DFE_INTERNAL, FAIL);
